@@ -33,6 +33,13 @@ func c18(tier string) []*explore.Scenario {
 	for k := 0; k <= 3; k++ {
 		out = append(out, c18Stop(k, bound))
 	}
+	seqLen := 5
+	if tier == "thorough" {
+		seqLen = 7
+	}
+	for first := 0; first < len(c18Ops); first++ {
+		out = append(out, c18OpSeq(first, seqLen))
+	}
 	// complete RPC workloads from several logical clients over one shared transport (through the proxy topology)
 	out = append(out, donors("C18", []*explore.Scenario{c16RPC("2unary", true, bound), c16RPC("unary+stream", true, bound)})...)
 	return out
@@ -338,6 +345,127 @@ func c18Stop(step, bound int) *explore.Scenario {
 			vsched.Obs("runDone=%v announced=%d", e.runDone, len(e.conns))
 			if !e.runDone {
 				vsched.Fail(fam+"|run-hang", "Stop did not end the run loop (stopped after %d envelopes; nobody consumes); threads: %s", step, strings.ReplaceAll(threadList(), ";", ";\n"))
+			}
+		},
+	}
+}
+
+var c18Ops = []string{"in:k0", "in:k1", "cancel:k0", "cancel:k1", "cancel:unknown", "stop"}
+
+// c18OpSeq: every sequence of demux operations up to maxLen (first operation
+// fixed per scenario, the rest chosen) - envelopes for two keys, Cancel of
+// either key or of a key never seen, Stop, in any order and repetition
+// (Cancel after Stop, Cancel twice, Stop twice, a cancelled key used again) -
+// against a reference model of which connections are announced and what each
+// receives. Consumers read and ack at once; the system quiesces between
+// operations.
+func c18OpSeq(first, maxLen int) *explore.Scenario {
+	fam := "C18/opseq"
+	return &explore.Scenario{
+		Name: fmt.Sprintf("C18/opseq/first=%s/len<=%d", c18Ops[first], maxLen), Family: fam, Prop: "C18", Bound: 0, MaxExecs: 3000000,
+		Run: func() {
+			e := newC18(true)
+			vsched.Settle()
+			seq := ""
+			var wantAnnounce []string          // model: key of each announced connection, in order
+			live := map[string]int{}           // model: key -> index of its current connection (absent: none)
+			wantGot := map[int][]uint64{}      // model: ids each connection receives
+			cancelled := map[int]bool{}        // model: connection index was cancelled
+			stopped := false
+			nextID := uint64(1)
+			for pos := 0; pos < maxLen; pos++ {
+				op := first
+				if pos > 0 {
+					c := vsched.Choose(len(c18Ops) + 1)
+					if c == len(c18Ops) {
+						break
+					}
+					op = c
+				}
+				name := c18Ops[op]
+				seq += " " + name
+				switch {
+				case strings.HasPrefix(name, "in:"):
+					key := name[3:]
+					e.shared.A.Inject(c18Msg(nextID, key))
+					if !stopped {
+						idx, ok := live[key]
+						if !ok {
+							idx = len(wantAnnounce)
+							wantAnnounce = append(wantAnnounce, key)
+							live[key] = idx
+						}
+						wantGot[idx] = append(wantGot[idx], nextID)
+					}
+					nextID++
+				case strings.HasPrefix(name, "cancel:"):
+					key := name[7:]
+					e.dm.Cancel(key)
+					if idx, ok := live[key]; ok {
+						cancelled[idx] = true
+						delete(live, key)
+					}
+				case name == "stop":
+					e.dm.Stop()
+					stopped = true
+				}
+				vsched.Quiesce()
+			}
+			vsched.Obs("seq:%s | announced=%d runDone=%v", seq, len(e.conns), e.runDone)
+			if stopped && !e.runDone {
+				vsched.Fail(fam+"|run-hang", "after%s: Stop did not end the run loop; threads: %s", seq, threadList())
+			}
+			if len(e.conns) != len(wantAnnounce) {
+				vsched.Fail(fam+"|announce-count", "after%s: %d connections announced, want %d (%v)", seq, len(e.conns), len(wantAnnounce), wantAnnounce)
+				return
+			}
+			for idx, key := range wantAnnounce {
+				var ids []uint64
+				for _, r := range e.got[idx] {
+					ids = append(ids, r.Id)
+					if r.GetHeader().GetSource() != key {
+						vsched.Fail(fam+"|wrong-connection", "after%s: connection %d (key %s) received envelope %d of key %s", seq, idx, key, r.Id, r.GetHeader().GetSource())
+					}
+				}
+				if fmt.Sprint(ids) != fmt.Sprint(wantGot[idx]) {
+					vsched.Fail(fam+"|delivery", "after%s: connection %d (key %s) received %v, want %v", seq, idx, key, ids, wantGot[idx])
+				}
+				for _, id := range wantGot[idx] {
+					// every envelope was acked by its consumer: the ack reached the shared transport unchanged
+					n := 0
+					for _, ev := range e.tap.Events {
+						if ev.Dir == "b2a" && ev.Rpc.GetId() == id+1000 {
+							n++
+						}
+					}
+					if n != 1 && !cancelled[idx] && !stopped {
+						vsched.Fail(fam+"|write-lost", "after%s: the ack for envelope %d written on connection %d reached the shared transport %d times", seq, id, idx, n)
+					}
+				}
+				if cancelled[idx] {
+					rw := e.conns[idx]
+					wdone, rdone := false, false
+					var werr, rerr error
+					vsched.GoNamed("late-writer", func() { werr = rw.Write(context.Background(), c18Msg(99, key)); wdone = true })
+					vsched.GoNamed("late-reader", func() { _, rerr = rw.Read(context.Background()); rdone = true })
+					vsched.Quiesce()
+					if !e.consumed[idx] {
+						vsched.Fail(fam+"|reader-parked", "after%s: the reader of cancelled connection %d (key %s) is still blocked", seq, idx, key)
+					}
+					if !wdone || werr == nil {
+						vsched.Fail(fam+"|write-after-cancel", "after%s: a Write on cancelled connection %d (key %s): returned=%v err=%v", seq, idx, key, wdone, werr)
+					}
+					if !rdone || rerr == nil {
+						vsched.Fail(fam+"|read-after-cancel", "after%s: a Read on cancelled connection %d (key %s): returned=%v err=%v", seq, idx, key, rdone, rerr)
+					}
+				}
+			}
+			e.dm.Stop()
+			e.shared.A.Break()
+			e.shared.B.Break()
+			vsched.Quiesce()
+			if !e.runDone {
+				vsched.Fail(fam+"|run-hang", "after%s: Run did not return after Stop; threads: %s", seq, threadList())
 			}
 		},
 	}
